@@ -66,6 +66,11 @@ checks.update({
    text="Seeded configurations (1-3 listen addresses over 127.0.0.1/[::1]/localhost, data dir, allow-list none/one/many unsorted, snapshot targets; each by flag or environment variable) are given to the real binary: every address must serve, listed clients served and strangers refused, X-Snapshot-Request must follow the configured versions target along a real history, after kill -9 and restart (configuration re-expressed in the other form) chain, payloads and snapshot are served as stored, and after ageing the stored snapshot the urgency must follow the configured days target.",
    note="Configuration space sampled (12 quick / 144 thorough); only loopback exists. If a library API change keeps the harness from building, the previously built harness drives the freshly built executable."),
 })
+checks.update({
+ "C19": dict(cat="exploration", tech="runtime monitoring: differential read of data directories written by the pinned code (committed corpus incl. kill -9 leftovers + directories written on every run by vendored pinned crates) with an expected-content oracle, then append", ref="DESIGN.md §7 C19",
+   text="A committed corpus of 12 data directories produced by the pinned tree (pinned executable over HTTP, pinned library, kill -9 with a live WAL, copy with an un-checkpointed WAL, payloads to 1 MB) plus ~100 (quick) / 3000 (thorough) directories freshly written by a verbatim vendored copy of the pinned core+sqlite crates are opened by the current code: every client, version, payload byte, latest pointer and snapshot (id, whole-second time, versions-since, bytes) must be served as written, then 5 versions and a snapshot are appended to each chain and the old history re-read.",
+   note="'Pinned release' = sources at a6bc6ed compiled with today's toolchain + the committed corpus (fixtures/), each directory with expected.json."),
+})
 checks.update(json.load(open('/verif/tools/manifest_extra.json')) if __import__('os').path.exists('/verif/tools/manifest_extra.json') else {})
 
 m = {
